@@ -329,6 +329,8 @@ def impl(case):
             st['op'] = ['simplify']; call = lambda h: h.simplify()
         elif kind == 'step':
             d = rng.randrange(2)
+            if not hasattr(g, '_simplify_step'):
+                continue        # a private helper of simplify(): exercised only while the implementation has it
             st['op'] = ['step', d]; call = lambda h: h._simplify_step(d)
         elif kind == 'merge':
             mp = _mergeable_pairs(g)
